@@ -5,7 +5,8 @@ import traceback
 from contracts.common import REG
 
 
-def run_property(rep, keys, hooks=None, explanation="", trusted=(), fallback=None, driver=True, known_keys=(), lemmas=None):
+def run_property(rep, keys, hooks=None, explanation="", trusted=(), fallback=None, driver=True, known_keys=(), lemmas=None, more=()):
+    """more: further (keys, hooks) groups - contracts that need another hook table than the first group"""
     rep.explanation = explanation
     rep.trusted += list(trusted) + ["z3 5.1 / cvc5 1.0.3 soundness", "pyvc executor (guarded by native cross-check and mutation trials)",
                                     "CPython built-ins as axiomatised in pyvc/builtins.py"]
@@ -31,6 +32,8 @@ def run_property(rep, keys, hooks=None, explanation="", trusted=(), fallback=Non
         return None
     if keys:
         rep.add_pyvc(REG, keys, hooks=hooks, fallback=fb)
+    for keys2, hooks2 in more:
+        rep.add_pyvc(REG, keys2, hooks=hooks2, fallback=fb)
     if lemmas:
         rep.add_lemmas(lemmas())
     if drv is not None:
